@@ -199,7 +199,7 @@ pub fn run_c04(a: &Args, shared: &SharedReport) {
         let mut r = shared.lock().unwrap();
         r.rule = "every value of each family within the bound, built in every insertion order/capacity/hasher instance; all unordered pairs within a family are decided by grouping on the recorded hasher stream, on the real fingerprint and on the harness's component-wise identity; non-trivial = the family has >= 2 distinct identities".into();
         r.bounds = json!({"sets": "HashableHashSet<u8> over {0,1,2}", "maps": "HashableHashMap<u8,u8> keys {0,1,2} values {0,1}", "nesting": "set of sets, map of sets, (S,S), [S;2], Vec<S> len<=3, struct of two sets, Vec<Timers> len<=3",
-            "networks": if th {"<=3 envelopes per kind"} else {"<=2 envelopes per kind"}, "clocks": "len<=3 components<=2", "actor_states": "all constructed states per kind (pairs) + all reachable states of the zoo per cfg (pairs)",
+            "networks": if th {"<=3 envelopes per kind"} else {"<=2 envelopes per kind"}, "clocks": "len<=3 components<=2", "actor_states": "all constructed states per kind (pairs) + all reachable states of the zoo per cfg (pairs) + systems of 1..130 actors differing in one per-actor component at every position",
             "testers": if th {"both testers over Register<char>: every well-formed history of 2 threads <=3 ops and 3 threads <=2 ops, start objects i/a (+b)"} else {"both testers over Register<char>: every well-formed history of 2 threads <=3 ops, start objects i/a (+b)"}});
     }
     let mut fam_idx = 0u64;
@@ -457,6 +457,36 @@ pub fn run_c04(a: &Args, shared: &SharedReport) {
                 vals.push((to_real(&s2), format!("{:?}", s2)));
             }
             check_family(r, &format!("actor-state-{:?}", kind), &vals, vals.len() < 2500);
+        });
+    }
+    // 9b. wide systems: one crash flag / timer / pending choice / local state, at every position, for actor counts on
+    //     both sides of the machine word sizes (a packed or truncated encoding of a per-actor component shows here)
+    for n in [1usize, 2, 7, 8, 9, 31, 32, 33, 63, 64, 65, 66, 127, 128, 129, 130] {
+        mine(shared, &mut |r| {
+            let base = RState { local: vec![0; n], up: vec![true; n], timers: vec![Default::default(); n], choices: vec![Default::default(); n], net: RNet::empty(NetKind::NonDup), hist: vec![] };
+            let mut vals = vec![(to_real(&base), "base".to_string())];
+            for i in 0..n {
+                let mut a = base.clone();
+                a.up[i] = false;
+                vals.push((to_real(&a), format!("crashed@{i}")));
+                let mut b = base.clone();
+                b.timers[i].insert(1);
+                vals.push((to_real(&b), format!("timer@{i}")));
+                let mut c = base.clone();
+                c.choices[i].insert("x".into(), vec![1]);
+                vals.push((to_real(&c), format!("choice@{i}")));
+                let mut d = base.clone();
+                d.local[i] = 1;
+                vals.push((to_real(&d), format!("local@{i}")));
+                if i + 1 < n {
+                    // two flags: the pair (i, i+1) against the single ones
+                    let mut e = base.clone();
+                    e.up[i] = false;
+                    e.up[i + 1] = false;
+                    vals.push((to_real(&e), format!("crashed@{i},{}", i + 1)));
+                }
+            }
+            check_family(r, &format!("actor-state-wide-{n}"), &vals, n <= 33);
         });
     }
     // 10. ActorModelState: all pairs of reachable states of the zoo; and the end-to-end count
